@@ -38,8 +38,7 @@ def genLeaf (ρ : Oracle) (s : State) (instrs : List Instr) (i : Nat) : Item × 
     | none => (.instr .noop, i + 1)
   | 3 => (.lit (.int (Int32.ofNat (ρ (i + 1)))), i + 2)
   | _ =>
-    let nEvent := (s.cfg.newErcNameProb * 10000).toUInt32.toNat
-    if ρ (i + 1) % 10000 < nEvent then (.ident (newName ρ (i + 2)), i + 3)
+    if ρ (i + 1) % 10000 < (s.cfg.newErcNameProb * 10000).toUInt32.toNat then (.ident (newName ρ (i + 2)), i + 3)
     else (.ident (boundName ρ { s with rng := i + 2 }), i + 3)
 
 /-- sub-trees for the parts of a decomposition; `g` generates one tree of a given size -/
@@ -64,8 +63,7 @@ def genCode (ρ : Oracle) (s : State) (instrs : List Instr) : Nat → Nat → Na
 /-- `random_code`: a size in `1..max_points`, then exact-size generation; nothing for `max_points < 2` -/
 def randomCode (ρ : Oracle) (s : State) (instrs : List Instr) (maxPoints : Nat) : Option (Item × Nat) :=
   if maxPoints > 1 then
-    let n := draw ρ s.rng 1 maxPoints
-    some (genCode ρ s instrs n (s.rng + 1) n)
+    some (genCode ρ s instrs (draw ρ s.rng 1 maxPoints) (s.rng + 1) (draw ρ s.rng 1 maxPoints))
   else none
 
 /-! ### value generators -/
@@ -78,7 +76,7 @@ def activeBits (size : Int32) (sparsity : Float32) : Nat :=
 
 /-- positions of `v` that still hold `dflt` -/
 def defaultPositions (v : List Bool) (dflt : Bool) : List Nat :=
-  v.zipIdx.filterMap fun (b, i) => if b == dflt then some i else none
+  (List.range v.length).filter fun p => v[p]? == some dflt
 
 /-- `k` successful flips. The rejection loop ("draw until a default position is hit") is modelled
 by its accepted draw: a uniformly chosen default position. -/
